@@ -363,4 +363,3 @@ func c01Statements(c *Check, x *xrunner) {
 	y.calls = xCallsStmt
 	y.runSpace(&xspace{segs: []xseg{asiSpace(), stmtSpace(c.Tier)}})
 }
-func c01JSX(c *Check, pool *NodePool) {}
